@@ -21,7 +21,6 @@ def additive_update(a, stmt):
         e = ('bin', e[1][1][:-1], e[1][2], e[1][3])
     if e[0] != 'bin' or e[1] not in ('Add', 'Sub'):
         return None
-    dst = a.flow.place(d, 0) if 'p' in d else ('local', d['l'], a.flow.lname(d['l']))
     dk = place_key(a, d)
     lk = expr_place_key(e[2])
     rk = expr_place_key(e[3])
@@ -33,10 +32,11 @@ def additive_update(a, stmt):
 
 
 def place_key(a, p):
-    """canonical key for a destination place: ('_5', 'total_chunks') or ('_7',) with the local's user name if any."""
-    name = a.flow.lname(p['l']) or '_%d' % p['l']
-    fs = tuple(e.get('n', str(e['f'])) for e in p.get('p', []) if isinstance(e, dict) and 'f' in e)
-    return (name,) + fs
+    """canonical key for a destination place: ('dedup_metrics', 'total_chunks'), ('cur_idx',), ('self', 'new_data_size');
+    the base is resolved through references exactly like a read of the same place would be."""
+    if 'p' not in p:
+        return (a.flow.lname(p['l']) or '_%d' % p['l'],)
+    return expr_place_key(a.flow.place(p, 0))
 
 
 def expr_place_key(e):
@@ -51,6 +51,8 @@ def expr_place_key(e):
         return (e[2] or '_%d' % e[1],) + tuple(reversed(fs))
     if e[0] == 'upvar':
         return (e[1],) + tuple(reversed(fs))
+    if e[0] == 'call' and fs:
+        return (flowm.show(e),) + tuple(reversed(fs))
     return None
 
 
